@@ -190,6 +190,54 @@ def run_world(rng, res, idx):
     res.sample(dict(idx=idx, kind='world', W=W, cfg={k: cfg[k] for k in ('F', 'decay', 'acc', 'hook', 'fdt', 'pdt', 'k', 'cap', 'sym')}, steps=nsteps, mixed=mixed))
 
 
+def run_wide_range(rng, res, idx):
+    """Half-precision factors at the edges of their range: many rows (batch x sequence) and un-normalised inputs whose SUM of
+    squares leaves float16 although the MEAN second moment is moderate. One Linear layer, one factor update, float64 reference."""
+    import warnings
+    import torch
+    from kfac.preconditioner import KFACPreconditioner
+
+    fdt = rng.choice([torch.float16, torch.float16, torch.bfloat16, torch.float32])
+    fi, fo = rng.randint(1, 6), rng.randint(1, 5)
+    lead = rng.choice([(8,), (200,), (700,), (40, 30), (3, 70, 5)])
+    scale = rng.choice([1.0, 30.0, 100.0])
+    bias = rng.random() < 0.6
+    dec = rng.choice([0.5, 0.9, 0.0])
+    case = dict(idx=idx, kind='wide', factor_dtype=str(fdt), fin=fi, fout=fo, lead=list(lead), input_scale=scale, bias=bias, decay=dec)
+    g = torch.Generator().manual_seed(rng.randrange(2 ** 31))
+    lin = torch.nn.Linear(fi, fo, bias=bias)
+    with torch.no_grad():
+        for q in lin.parameters():
+            q.copy_(torch.randn(q.shape, generator=g) * 0.1)
+    model = torch.nn.Sequential(lin)
+    with warnings.catch_warnings():
+        warnings.simplefilter('ignore')
+        p = KFACPreconditioner(model, factor_update_steps=1, inv_update_steps=1, damping=0.1, factor_decay=(dec if dec > 0 else 1e-9), factor_dtype=fdt, kl_clip=None, lr=0.1)
+    x = torch.randn(*lead, fi, generator=g) * scale
+    w = torch.randn(*lead, fo, generator=g)
+    (model(x) * w).sum().backward()
+    sd = p.state_dict()['layers']
+    name = next(iter(sd))
+    xr = x.reshape(-1, fi).double()
+    if bias:
+        xr = torch.cat([xr, torch.ones(xr.shape[0], 1, dtype=torch.float64)], 1)
+    gr = w.reshape(-1, fo).double()
+    d = dec if dec > 0 else 1e-9
+    Aref = d * torch.eye(xr.shape[1], dtype=torch.float64) + (1 - d) * (xr.t() @ xr) / xr.shape[0]
+    Gref = d * torch.eye(fo, dtype=torch.float64) + (1 - d) * (gr.t() @ gr) / gr.shape[0]
+    res.count('wide_range_checks')
+    if sd[name]['A'] is None:
+        return res.violation('no factor after a complete forward/backward pass on a factor-update step (hook mode)', case)
+    for tag, X, Xref in (('A', sd[name]['A'], Aref), ('G', sd[name]['G'], Gref)):
+        if not torch.isfinite(X).all():
+            return res.violation(f'wide-range batch ({xr.shape[0]} rows, input scale {scale}): factor {tag} stored as {X.dtype} is not finite although the mean second moment '
+                                 f'is at most {float(Xref.abs().max()):.4g}', case)
+        if not check_factor(res, case, f'wide-range batch ({xr.shape[0]} rows, input scale {scale}), {tag}', X, Xref, fdt, 4):
+            return
+    if fdt in (torch.float16, torch.bfloat16) and xr.shape[0] >= 200:
+        res.nontrivial.add(stable_hash('wide', str(fdt), lead, scale, bias))
+
+
 def plan(tier, seed):
     n = tier_value(tier, 480, 48000)
     shards = tier_value(tier, 8, 14)
@@ -204,6 +252,8 @@ def run_shard(spec, res):
             break
         res.evaluations += 1
         from kverif.kharness import call_case
+        if i % 10 == 7:
+            call_case(res, run_wide_range, case_rng(spec['seed'], ID, i, 'wide'), res, i, case=dict(idx=i, kind='wide'))
         if i % 5 == 4:
             call_case(res, run_world, case_rng(spec['seed'], ID, i, 'w'), res, i, case=dict(idx=i, kind='world'))
         else:
@@ -213,7 +263,9 @@ def run_shard(spec, res):
 def replay(case, res):
     import os
     seed = int(os.environ.get('VERIF_SEED', '0'))
-    if case.get('kind') == 'world':
+    if case.get('kind') == 'wide':
+        run_wide_range(case_rng(seed, ID, case['idx'], 'wide'), res, case['idx'])
+    elif case.get('kind') == 'world':
         run_world(case_rng(seed, ID, case['idx'], 'w'), res, case['idx'])
     else:
         run_single(case_rng(seed, ID, case['idx']), res, case['idx'])
